@@ -148,6 +148,58 @@ def _mutations(fn: ast.AST) -> Dict[str, Set[str]]:
     return out
 
 
+def _dict_sets(fn: ast.AST) -> Set[str]:
+    """Local dicts that are only used as (insertion-ordered) sets of their keys: initialised empty, filled by
+    `d.setdefault(k, <constant>)` / `d[k] = <constant>` statements, and otherwise only iterated, counted,
+    tested for membership / emptiness, copied into a list / tuple / set, or returned."""
+    parents: Dict[ast.AST, ast.AST] = {}
+    for n in ast.walk(fn):
+        for ch in ast.iter_child_nodes(n):
+            parents[ch] = n
+    inits: Dict[str, int] = {}
+    bad: Set[str] = set()
+    for n in ast.walk(fn):
+        if not isinstance(n, ast.Name):
+            continue
+        p = parents.get(n)
+        if isinstance(n.ctx, ast.Store):
+            v = p.value if isinstance(p, (ast.Assign, ast.AnnAssign)) and (n in getattr(p, "targets", []) or getattr(p, "target", None) is n) else None
+            empty = isinstance(v, ast.Dict) and not v.keys or (isinstance(v, ast.Call) and isinstance(v.func, ast.Name) and v.func.id == "dict" and not v.args and not v.keywords)
+            if empty:
+                inits[n.id] = inits.get(n.id, 0) + 1
+            else:
+                bad.add(n.id)
+            continue
+        if isinstance(n.ctx, ast.Del):
+            bad.add(n.id)
+            continue
+        ok = False
+        if isinstance(p, ast.Attribute) and p.value is n and p.attr == "setdefault":
+            c = parents.get(p)
+            ok = isinstance(c, ast.Call) and c.func is p and len(c.args) == 2 and isinstance(c.args[1], ast.Constant) and not c.keywords and isinstance(parents.get(c), ast.Expr)
+        elif isinstance(p, ast.Attribute) and p.value is n and p.attr == "keys":
+            c = parents.get(p)
+            ok = isinstance(c, ast.Call) and c.func is p and isinstance(parents.get(c), (ast.For, ast.comprehension))
+        elif isinstance(p, ast.Subscript) and p.value is n and isinstance(p.ctx, ast.Store):
+            c = parents.get(p)
+            ok = isinstance(c, ast.Assign) and len(c.targets) == 1 and isinstance(c.value, ast.Constant)
+        elif isinstance(p, (ast.For, ast.comprehension)) and p.iter is n:
+            ok = True
+        elif isinstance(p, ast.Call) and isinstance(p.func, ast.Name) and p.func.id in ("len", "bool", "list", "tuple", "set", "frozenset", "sorted", "iter") and p.args == [n]:
+            ok = True
+        elif isinstance(p, ast.Compare) and n in p.comparators and all(isinstance(o, (ast.In, ast.NotIn)) for o in p.ops):
+            ok = True
+        elif isinstance(p, (ast.If, ast.While, ast.IfExp)) and p.test is n:
+            ok = True
+        elif isinstance(p, ast.UnaryOp) and isinstance(p.op, ast.Not):
+            ok = True
+        elif isinstance(p, ast.Return):
+            ok = True
+        if not ok:
+            bad.add(n.id)
+    return {k for k, c in inits.items() if c == 1 and k not in bad}
+
+
 _TAKERS = {"pop", "popitem", "popleft", "heappop", "get_nowait"}
 _MUTATORS = {"append", "add", "extend", "update", "pop", "remove", "clear", "insert", "setdefault",
              "discard", "popitem", "sort", "reverse", "<setitem>", "<setattr>", "<aug>", "set", "cancel"}
@@ -166,6 +218,7 @@ class Walker:
             self.outer_locals |= set(p.params) | _assigned_names(p.node)
             p = p.parent
         self.mut = _mutations(node)
+        self.dict_sets = _dict_sets(node) if not isinstance(node, ast.Lambda) else set()
         # a local handed by name to a helper introduced after the pinned tree that mutates the corresponding
         # parameter is mutated here, too (the helper is analysed spliced into this function)
         for n in ast.walk(node):
@@ -464,6 +517,9 @@ class Walker:
         return self._comp(n, [n.key, n.value], "dict")
 
     def e_Call(self, n: ast.Call, awaited: bool = False) -> Term:
+        if isinstance(n.func, ast.Attribute) and n.func.attr == "keys" and isinstance(n.func.value, ast.Name) and n.func.value.id in self.dict_sets \
+                and n.func.value.id in self.acc_ctx and not n.args and not n.keywords:
+            return self.expr(n.func.value)         # the keys of a dict that is used as a set: the set
         f = self.expr(n.func)
         args: List[Term] = []
         for a in n.args:
@@ -501,6 +557,11 @@ class Walker:
         # accumulators
         if isinstance(n.func, ast.Attribute) and isinstance(n.func.value, ast.Name):
             nm, meth = n.func.value.id, n.func.attr
+            if nm in self.acc_ctx and nm in self.dict_sets and meth == "setdefault" and len(args) == 2 and self._comp_depth == 0:
+                cur = T.strip(self.env.get(nm, ("bag", (), "set")))
+                if cur[0] == "bag":
+                    g0, i0 = self.acc_ctx[nm]
+                    self.env[nm] = ("bag", cur[1] + (("elem", args[0], self.guards[g0:], self.iters[i0:]),), cur[2])
             if nm in self.acc_ctx and meth in ACC_METHODS and len(args) == 1 and self._comp_depth == 0:
                 cur = T.strip(self.env.get(nm, ("bag", (), "list")))
                 if cur[0] == "bag":
@@ -531,6 +592,11 @@ class Walker:
         sv = T.strip(value)
         is_acc_init = (sv[0] == "bag" and (len(sv) < 3 or sv[2] in ("list", "set", "gen"))) or (sv[0] == "call" and sv[1][0] == "glob" and sv[1][1] in ("list", "set") and not sv[2])
         muts = self.mut.get(name, set()) & _MUTATORS
+        if name in self.dict_sets and self._in_loop == 0 and (sv == ("dict", ()) or (sv[0] == "call" and sv[1] == ("glob", "dict"))):
+            # a dict whose values carry no meaning: the (insertion-ordered) set of its keys
+            self.acc_ctx[name] = (len(self.guards), len(self.iters))
+            self.env[name] = ("bag", (), "set")
+            return
         # `xs = list(ys)` that is extended later: a collection that starts with the elements of ys
         if (not is_acc_init and sv[0] == "call" and sv[1][0] == "glob" and sv[1][1] in ("list", "set") and len(sv[2]) == 1 and not sv[3]
                 and muts and muts <= {"append", "add", "extend", "update", "<aug>"} and self._in_loop == 0):
@@ -577,6 +643,13 @@ class Walker:
         elif isinstance(t, ast.Starred):
             self.assign_target(t.value, ("unknown", "starred-target"), node)
         else:
+            if isinstance(t, ast.Subscript) and isinstance(t.value, ast.Name) and t.value.id in self.dict_sets and t.value.id in self.acc_ctx and self._comp_depth == 0:
+                nm = t.value.id
+                cur = T.strip(self.env.get(nm, ("bag", (), "set")))
+                if cur[0] == "bag":
+                    g0, i0 = self.acc_ctx[nm]
+                    self.env[nm] = ("bag", cur[1] + (("elem", self.expr(t.slice), self.guards[g0:], self.iters[i0:]),), cur[2])
+                    return
             tgt = self.expr(t)
             self.emit("store", ("store", tgt, value), node)
 
@@ -896,16 +969,86 @@ class Walker:
         self.unknowns.append(f"match statement at line {st.lineno}")
 
 
+def _set_tables(prog: Program) -> None:
+    """Make the package's value classes and unambiguous keyword defaults known to the term normaliser."""
+    if getattr(prog, "_tables_set", False) and T.RECORDS is prog.records():
+        return
+    T.RECORDS = prog.records()
+    by_name: Dict[str, List[FuncInfo]] = {}
+    for f in prog.all_functions():
+        if not isinstance(f.node, ast.Lambda):
+            by_name.setdefault(f.name, []).append(f)
+    d: Dict[str, Dict[str, Any]] = {}
+    for nm, fs in by_name.items():
+        tabs = []
+        for f in fs:
+            a = f.node.args
+            names = [x.arg for x in a.posonlyargs + a.args]
+            tab = {n: dv.value for n, dv in zip(names[len(names) - len(a.defaults):], a.defaults) if isinstance(dv, ast.Constant)}
+            tab.update({x.arg: dv.value for x, dv in zip(a.kwonlyargs, a.kw_defaults) if isinstance(dv, ast.Constant)})
+            tabs.append(tab)
+        common = {k: v for k, v in tabs[0].items() if all(k in t and t[k] == v and type(t[k]) is type(v) for t in tabs[1:])}
+        if common:
+            d[nm] = common
+    T.DEFAULTS = d
+    # module-level lookup tables: displays with constant keys whose values are names, never modified afterwards
+    tabs: Dict[str, Dict[Any, Term]] = {}
+    stored_attrs = set()
+    for m in prog.modules.values():
+        for n in ast.walk(m.tree):
+            if isinstance(n, ast.Attribute) and isinstance(n.ctx, (ast.Store, ast.Del)):
+                stored_attrs.add(n.attr)
+    for m in prog.modules.values():
+        touched = set()
+        counts: Dict[str, int] = {}
+        for n in ast.walk(m.tree):
+            if isinstance(n, ast.Name) and isinstance(n.ctx, (ast.Store, ast.Del)):
+                counts[n.id] = counts.get(n.id, 0) + 1
+            if isinstance(n, (ast.Subscript, ast.Attribute)) and isinstance(n.ctx, (ast.Store, ast.Del)):
+                r = _root_name(n)
+                if r:
+                    touched.add(r)
+            if isinstance(n, ast.Call) and isinstance(n.func, ast.Attribute) and n.func.attr in _MUTATORS:
+                r = _root_name(n.func.value)
+                if r:
+                    touched.add(r)
+        for nm, v in m.globals_assigned.items():
+            if nm in touched or counts.get(nm, 0) != 1:
+                continue
+            if isinstance(v, ast.Dict) and v.keys and all(isinstance(k, ast.Constant) for k in v.keys):
+                pairs = [(k.value, x) for k, x in zip(v.keys, v.values)]      # type: ignore[union-attr]
+            elif isinstance(v, (ast.Tuple, ast.List)) and v.elts:
+                pairs = list(enumerate(v.elts))
+            else:
+                continue
+            tab: Dict[Any, Term] = {}
+            for k, x in pairs:
+                d2 = dotted(x)
+                if isinstance(x, ast.Constant):
+                    tab[k] = T.const(x.value)
+                elif d2 is not None and (lambda q: (not q.startswith(prog.package + ".") and "." in q) or ((q in prog.functions or q in prog.classes) and q.rsplit(".", 1)[-1] not in stored_attrs))(prog.resolve_name(m, d2)):
+                    # a function of another library, or a package function / class that nothing re-assigns
+                    tab[k] = T.glob(prog.resolve_name(m, d2))
+                else:
+                    tab = {}
+                    break
+            if tab:
+                tabs[f"{m.name}.{nm}"] = tab
+    T.CONST_TABLES = tabs
+    prog._tables_set = True  # type: ignore[attr-defined]
+
+
 def summarise(prog: Program, fi: FuncInfo) -> Summary:
     cached = getattr(fi, "_summary", None)
     if cached is not None:
         return cached
+    _set_tables(prog)
     w = Walker(prog, fi)
     if isinstance(fi.node, ast.Lambda):
         w.returns.append(w.emit("return", w.expr(fi.node.body), fi.node))
     else:
         w.block(fi.node.body)
-    events = alias_fields(fuse_events(w.events))
+    events = get_as_index(alias_fields(fuse_events(w.events)))
     s = Summary(fi, events, [e for e in events if e.kind == "return"], w.env, w.locals, w.unknowns)
     fi._summary = s  # type: ignore[attr-defined]
     try:
@@ -915,6 +1058,40 @@ def summarise(prog: Program, fi: FuncInfo) -> Summary:
     if s2 is not s:
         fi._summary = s2  # type: ignore[attr-defined]
     return fi._summary  # type: ignore[attr-defined]
+
+
+def replace_stripped(t: Any, mapping: Dict[Term, Term]) -> Any:
+    """`T.replace` that also finds the sub-terms behind `let` wrappers."""
+    if not isinstance(t, tuple):
+        return t
+    if T.is_term(t):
+        st = T.strip(t) if t[0] == "let" else t
+        if st in mapping:
+            return mapping[st]
+        if st is not t and T.strip(st) in mapping:
+            return mapping[T.strip(st)]
+    return tuple(replace_stripped(x, mapping) for x in t)
+
+
+def get_as_index(events: List[Event]) -> List[Event]:
+    """`d.get(k)` whose value was tested to be not None is the entry `d[k]`: under that guard the two
+    expressions denote the same object (`sim = self.sims.get(sid); if sim is None: raise ...`)."""
+    out: List[Event] = []
+    changed = False
+    for e in events:
+        m: Dict[Term, Term] = {}
+        for g in e.guards:
+            gt = T.guard_term(g)
+            if gt[0] == "cmp" and gt[1] == "isnot" and T.NONE in (gt[2], gt[3]):
+                G = gt[2] if gt[3] == T.NONE else gt[3]
+                if G[0] == "call" and G[1][0] == "attr" and G[1][2] == "get" and len(G[2]) == 1 and not G[3]:
+                    m[G] = ("idx", G[1][1], G[2][0])
+        if m and any(T.contains((e.term, e.iters), G) for G in m):
+            changed = True
+            out.append(Event(e.idx, e.kind, T.replace(e.term, m), replace_stripped(e.raw, m), e.node, e.stmt, e.guards, T.replace(e.iters, m), e.tries, e.awaited, e.extra))
+        else:
+            out.append(e)
+    return out if changed else events
 
 
 def alias_fields(events: List[Event]) -> List[Event]:
@@ -988,15 +1165,55 @@ def alias_fields(events: List[Event]) -> List[Event]:
     return out if changed else events
 
 
+def _tidy_guards(guards: Tuple[Term, ...], iters: Tuple[Term, ...]) -> Tuple[Term, ...]:
+    """Drop repeated guards, and the guard "X is not empty" of something that happens once per element of X."""
+    srcs = set()
+    for it in iters:
+        if T.is_term(it) and it[0] == "it" and len(it) >= 3:
+            src = T.strip(it[2])
+            srcs.add(src)
+            if src[0] == "call" and src[1][0] == "attr" and src[1][2] in ("items", "values", "keys") and not src[2]:
+                srcs.add(src[1][1])
+    out: List[Term] = []
+    for g in guards:
+        if g in out:
+            continue
+        gt = T.guard_term(g)
+        if gt in srcs or (gt[0] == "call" and gt[1] == ("glob", "len") and len(gt[2]) == 1 and gt[2][0] in srcs):
+            continue
+        out.append(g)
+    return tuple(out)
+
+
+def _const_guards(guards: Tuple[Term, ...]) -> Optional[Tuple[Term, ...]]:
+    """Guards whose condition is a constant: dropped when they hold; None when one cannot hold."""
+    if not any(T.is_term(g) and len(g) == 3 and T.is_term(g[1]) and g[1][0] == "const" for g in guards):
+        return guards
+    out = []
+    for g in guards:
+        if T.is_term(g) and len(g) == 3 and T.is_term(g[1]) and g[1][0] == "const":
+            if bool(g[1][1]) != bool(g[2]):
+                return None
+            continue
+        out.append(g)
+    return tuple(out)
+
+
 def fuse_events(events: List[Event]) -> List[Event]:
     """Comprehension fusion on every event: terms and guards are fused, and an event inside a loop
     over a collection that was itself built from guarded / iterated elements is re-expressed as
-    events over the underlying iteration (one per element of the collection)."""
+    events over the underlying iteration (one per element of the collection).  Events under a guard that
+    has become a false constant (a conditional on a field of a value-class constructor) disappear."""
     out: List[Event] = []
     changed = False
     for e in events:
         term, guards = T.fuse(e.term), T.fuse(e.guards)
         iters = T.fuse(e.iters)
+        cg = _const_guards(guards)
+        if cg is None:
+            changed = True
+            continue
+        guards = cg
         parts = T.fuse_elem(("elem", ("§ev", term, guards), (), iters)) if any(T.is_term(i) and i[0] == "it" and len(i) >= 3 and T._plain_bag(i[2]) is not None and T._plain_bag(i[2])[1] for i in iters) else None
         if parts is None:
             if term is not e.term and (term != e.term or guards != e.guards or iters != e.iters):
@@ -1008,7 +1225,10 @@ def fuse_events(events: List[Event]) -> List[Event]:
         changed = True
         for el in parts:
             _, (_, t2, g2), ig, it2 = el
-            out.append(Event(len(out), e.kind, t2, t2, e.node, e.stmt, tuple(g2) + tuple(ig), tuple(it2), e.tries, e.awaited, e.extra))
+            t2, gg = T.fuse(t2), _const_guards(T.fuse(tuple(g2) + tuple(ig)))
+            if gg is None:
+                continue
+            out.append(Event(len(out), e.kind, t2, t2, e.node, e.stmt, _tidy_guards(gg, tuple(it2)), tuple(it2), e.tries, e.awaited, e.extra))
     if not changed:
         return events
     for i, e in enumerate(out):
@@ -1174,6 +1394,18 @@ def _resolve_callee(prog: Program, fi: FuncInfo, e: Event) -> Tuple[Optional[Fun
             return m, f[1]
         if m is not None and any(ast.unparse(d) == "staticmethod" for d in m.node.decorator_list):
             return m, None
+    if f[0] == "attr":
+        # a method of a value class, called on the constructor expression itself
+        rv = T.record_values(f[1])
+        if rv is not None:
+            m = prog.find_method(rv[0], f[2])
+            if m is not None and not any(ast.unparse(d) in ("staticmethod", "classmethod", "property") for d in m.node.decorator_list):
+                return m, f[1]
+    if f[0] == "attr" and f[1][0] != "var" and not (fi.cls is not None and fi.params and f[1] == T.var(fi.params[0])):
+        # a method that a later change added to a package class, called on an expression of that class
+        m = _typed_method(prog, fi, e, f[1], f[2])
+        if m is not None:
+            return m, f[1]
     if f[0] == "attr" and f[1][0] == "var":
         # a method that a later change added to a package class, called on a parameter annotated with that class
         a = fi.node.args
@@ -1188,6 +1420,42 @@ def _resolve_callee(prog: Program, fi: FuncInfo, e: Event) -> Tuple[Optional[Fun
                     if m is not None and is_new_helper(m) and not any(ast.unparse(d) in ("staticmethod", "classmethod", "property") for d in m.node.decorator_list):
                         return m, f[1]
     return None, None
+
+
+def _typed_method(prog: Program, fi: FuncInfo, e: Event, recv: Term, name: str) -> Optional[FuncInfo]:
+    """The method `name` of the (annotation-inferred) class of `recv`, if it is a plain method that a later change
+    introduced."""
+    cands = [c for c in prog.classes.values() if name in c.methods and is_new_helper(c.methods[name])]
+    if not cands:
+        return None
+    from . import types as TY
+    ty = getattr(prog, "_typer", None)
+    if ty is None:
+        ty = TY.Typer(prog)
+        prog._typer = ty  # type: ignore[attr-defined]
+    try:
+        # parameters, `self` and annotated locals only (the full environment needs this very summary)
+        env: Dict[str, Any] = {}
+        a = fi.node.args
+        for i, prm in enumerate(a.posonlyargs + a.args + a.kwonlyargs):
+            if prm.annotation is not None:
+                env[prm.arg] = ty.ann(prm.annotation, fi.module)
+            elif i == 0 and fi.cls is not None and "staticmethod" not in fi.decorators:
+                env[prm.arg] = TY.cls(fi.cls.qualname)
+        for n in ast.walk(fi.node):
+            if isinstance(n, ast.AnnAssign) and isinstance(n.target, ast.Name):
+                env.setdefault(n.target.id, ty.ann(n.annotation, fi.module))
+        for it in e.iters:
+            ty.bind_iter(it, env)
+        t = TY.Typer.unopt(ty.type_of(recv, env))
+    except Exception:
+        return None
+    if not (isinstance(t, tuple) and len(t) == 2 and t[0] == "cls"):
+        return None
+    m = prog.find_method(t[1], name)
+    if m is not None and is_new_helper(m) and not any(ast.unparse(d) in ("staticmethod", "classmethod", "property") for d in m.node.decorator_list):
+        return m
+    return None
 
 
 def _bind_params(callee: FuncInfo, recv: Optional[Term], args: Tuple[Term, ...], kws: Tuple[Tuple[str, Term], ...]) -> Optional[Dict[Term, Term]]:
@@ -1389,6 +1657,80 @@ def cold_cache(prog: Program, fi: FuncInfo, s: Summary) -> Summary:
     return Summary(s.func, out, [e for e in out if e.kind == "return"], s.env, s.locals, s.unknowns)
 
 
+def _takes(t: Any) -> bool:
+    return any(x[0] == "call" and ((x[1][0] == "attr" and x[1][2] in _TAKERS) or (x[1][0] == "glob" and x[1][1].rsplit(".", 1)[-1] in _TAKERS)) for x in T.subterms(t))
+
+
+def _splice_pass(prog: Program, fi: FuncInfo, events: List[Event]) -> Tuple[List[Event], bool]:
+    subst: Dict[Term, Term] = {}
+    out: List[Event] = []
+
+    def add(kind, term, node, stmt, guards, iters, tries, awaited, extra, raw=None) -> Event:
+        ev = Event(len(out), kind, term, term if raw is None else raw, node, stmt, guards, iters, tries, awaited, extra)
+        out.append(ev)
+        return ev
+
+    changed = False
+    skip_await_of: Set[Term] = set()
+    survived: Tuple[Term, ...] = ()      # "the spliced helper did not raise": holds for everything after its call
+    for e in events:
+        term = T.replace(e.term, subst) if subst else e.term
+        guards = T.replace(e.guards, subst) if subst else e.guards
+        if survived:
+            guards = tuple(guards) + tuple(g for g in survived if g not in guards)
+        iters = T.replace(e.iters, subst) if subst else e.iters
+        if e.kind == "await" and e.term in skip_await_of:
+            continue              # the await of a spliced coroutine helper: its own awaits stand here now
+        callee, recv = _resolve_callee(prog, fi, e) if (e.kind == "call" and "spliced_call" not in e.extra) else (None, None)
+        if callee is not None and spliceable(prog, fi, callee) and (not callee.is_async or e.awaited):
+            args = T.replace(e.term[2], subst) if subst else e.term[2]
+            kws = T.replace(e.term[3], subst) if subst else e.term[3]
+            mapping = _bind_params(callee, T.replace(recv, subst) if (recv is not None and subst) else recv, args, kws)
+            if mapping is not None:
+                cs = spliced(prog, callee) if is_new_helper(callee) else summarise(prog, callee)
+                # the call itself: a plain call event for helpers of the pinned tree; only a marker (kind
+                # "spliced") for helpers introduced later, whose call is not a fact of its own
+                add("spliced" if is_new_helper(callee) else e.kind, ("marker", callee.qualname) if is_new_helper(callee) else ("call", e.term[1], args, kws), e.node, e.stmt, guards, iters, e.tries, e.awaited, dict(e.extra, spliced_call=callee.qualname))
+                # locals of the helper must not collide with the caller's names
+                locs = {T.var(n): T.var(f"{n}§{callee.name}") for n in cs.locals if T.var(n) not in mapping}
+                full = dict(locs)
+                full.update(mapping)
+                taken: Dict[int, Term] = {}
+                for ce in cs.events:
+                    if ce.kind == "return":
+                        continue
+                    if ce.kind == "yield" and _takes(ce.term):
+                        # a value that is taken out of a container as it is yielded: name it once (using the expression
+                        # wherever the consumer uses the value would repeat the removal)
+                        tv = T.var(f"yielded{len(taken) + 1}§{callee.name}")
+                        taken[ce.idx] = tv
+                        add("bind", ("bind", tv, T.replace(ce.term, full)), ce.node, e.stmt, guards + T.replace(ce.guards, full), iters + T.replace(ce.iters, full),
+                            e.tries + ce.tries, False, dict(ce.extra, via=callee.qualname))
+                    add(ce.kind, taken.get(ce.idx, T.replace(ce.term, full)) if ce.kind == "yield" else T.replace(ce.term, full), ce.node, e.stmt, guards + T.replace(ce.guards, full), iters + T.replace(ce.iters, full),
+                        e.tries + ce.tries, ce.awaited, dict(ce.extra, via=callee.qualname), raw=T.replace(ce.raw, full))
+                # an early `raise` of the helper ends the caller, too: what follows the call runs under its negation
+                if not e.tries:
+                    for ce in cs.events:
+                        if ce.kind == "raise" and not ce.iters and ce.guards and not any(r == "body" for _, r in ce.tries):
+                            gts = tuple(T.guard_term(g) for g in T.replace(ce.guards, full))
+                            cond = gts[0] if len(gts) == 1 else ("and", gts)
+                            survived = survived + (("g", cond, False),)
+                ys = [ce for ce in cs.events if ce.kind == "yield"]
+                if ys:
+                    rv = ("bag", tuple(("elem", taken.get(ce.idx, ce.term), tuple(ce.guards), tuple(ce.iters)) for ce in ys), "gen")
+                else:
+                    rv = fold_returns(cs)
+                val = T.replace(rv, full) if rv is not None else T.NONE
+                subst[e.term] = val
+                if callee.is_async:
+                    subst[("await", e.term)] = val
+                    skip_await_of.add(e.term)
+                changed = True
+                continue
+        add(e.kind, term, e.node, e.stmt, guards, iters, e.tries, e.awaited, e.extra, raw=(T.replace(e.raw, subst) if subst else e.raw))
+    return out, changed
+
+
 def spliced(prog: Program, fi: FuncInfo) -> Summary:
     """The function's summary with the bodies of helpers spliced in at their call sites (small
     synchronous nested / same-module helpers of the pinned tree, and every helper that a later change
@@ -1403,64 +1745,18 @@ def spliced(prog: Program, fi: FuncInfo) -> Summary:
         return base
     _SPLICING.add(fi.qualname)
     try:
-        subst: Dict[Term, Term] = {}
-        out: List[Event] = []
-
-        def add(kind, term, node, stmt, guards, iters, tries, awaited, extra, raw=None) -> Event:
-            ev = Event(len(out), kind, term, term if raw is None else raw, node, stmt, guards, iters, tries, awaited, extra)
-            out.append(ev)
-            return ev
-
         changed = False
-        skip_await_of: Set[Term] = set()
-        survived: Tuple[Term, ...] = ()      # "the spliced helper did not raise": holds for everything after its call
-        for e in base.events:
-            term = T.replace(e.term, subst) if subst else e.term
-            guards = T.replace(e.guards, subst) if subst else e.guards
-            if survived:
-                guards = tuple(guards) + tuple(g for g in survived if g not in guards)
-            iters = T.replace(e.iters, subst) if subst else e.iters
-            if e.kind == "await" and e.term in skip_await_of:
-                continue              # the await of a spliced coroutine helper: its own awaits stand here now
-            callee, recv = _resolve_callee(prog, fi, e) if e.kind == "call" else (None, None)
-            if callee is not None and spliceable(prog, fi, callee) and (not callee.is_async or e.awaited):
-                args = T.replace(e.term[2], subst) if subst else e.term[2]
-                kws = T.replace(e.term[3], subst) if subst else e.term[3]
-                mapping = _bind_params(callee, T.replace(recv, subst) if (recv is not None and subst) else recv, args, kws)
-                if mapping is not None:
-                    cs = spliced(prog, callee) if is_new_helper(callee) else summarise(prog, callee)
-                    # the call itself: a plain call event for helpers of the pinned tree; only a marker (kind
-                    # "spliced") for helpers introduced later, whose call is not a fact of its own
-                    add("spliced" if is_new_helper(callee) else e.kind, ("marker", callee.qualname) if is_new_helper(callee) else ("call", e.term[1], args, kws), e.node, e.stmt, guards, iters, e.tries, e.awaited, dict(e.extra, spliced_call=callee.qualname))
-                    # locals of the helper must not collide with the caller's names
-                    locs = {T.var(n): T.var(f"{n}§{callee.name}") for n in cs.locals if T.var(n) not in mapping}
-                    full = dict(locs)
-                    full.update(mapping)
-                    for ce in cs.events:
-                        if ce.kind == "return":
-                            continue
-                        add(ce.kind, T.replace(ce.term, full), ce.node, e.stmt, guards + T.replace(ce.guards, full), iters + T.replace(ce.iters, full),
-                            e.tries + ce.tries, ce.awaited, dict(ce.extra, via=callee.qualname), raw=T.replace(ce.raw, full))
-                    # an early `raise` of the helper ends the caller, too: what follows the call runs under its negation
-                    if not e.tries:
-                        for ce in cs.events:
-                            if ce.kind == "raise" and not ce.iters and ce.guards and not any(r == "body" for _, r in ce.tries):
-                                gts = tuple(T.guard_term(g) for g in T.replace(ce.guards, full))
-                                cond = gts[0] if len(gts) == 1 else ("and", gts)
-                                survived = survived + (("g", cond, False),)
-                    ys = [ce for ce in cs.events if ce.kind == "yield"]
-                    if ys:
-                        rv = ("bag", tuple(("elem", ce.term, tuple(ce.guards), tuple(ce.iters)) for ce in ys), "gen")
-                    else:
-                        rv = fold_returns(cs)
-                    val = T.replace(rv, full) if rv is not None else T.NONE
-                    subst[e.term] = val
-                    if callee.is_async:
-                        subst[("await", e.term)] = val
-                        skip_await_of.add(e.term)
-                    changed = True
-                    continue
-            add(e.kind, term, e.node, e.stmt, guards, iters, e.tries, e.awaited, e.extra, raw=(T.replace(e.raw, subst) if subst else e.raw))
+        out: List[Event] = list(base.events)
+        # several rounds: fusing the first round's results can expose further calls (a method called on each
+        # element of a collection of value-class constructors that a generator helper produced)
+        for _round in range(4):
+            out2, ch = _splice_pass(prog, fi, out)
+            if not ch:
+                break
+            changed = True
+            out = fuse_events(out2)
+            for i, ev in enumerate(out):
+                ev.idx = i
         # `super().<property>`: the value of the base class's property on the same object
         if fi.cls is not None and fi.params:
             SUP = ("call", ("glob", "super"), (), ())
@@ -1489,3 +1785,68 @@ def spliced(prog: Program, fi: FuncInfo) -> Summary:
         return s2
     finally:
         _SPLICING.discard(fi.qualname)
+
+
+# ----------------------------------------------------------------------------- value classes as tuples
+def final(prog: Program, fi: FuncInfo) -> Summary:
+    """What the rules read: the spliced summary in which the package's NamedTuple value classes are plain tuples --
+    `C(a, b)` is the display `(a, b)`, and `x.field` on an expression whose (annotation-inferred) class is C is
+    `x[i]`.  Replacing a tuple by a NamedTuple (or back) then changes nothing the rules look at."""
+    cached = getattr(fi, "_final", None)
+    if cached is not None:
+        return cached
+    s = spliced(prog, fi)
+    recs = {q: r for q, r in prog.records().items() if r[2]}
+    if fi.qualname in _SPLICING or not recs:
+        if fi.qualname not in _SPLICING:
+            fi._final = s  # type: ignore[attr-defined]
+        return s
+    names = {f for r in recs.values() for f in r[0]}
+    from . import types as TY
+    ty = getattr(prog, "_typer", None)
+    if ty is None:
+        ty = TY.Typer(prog)
+        prog._typer = ty  # type: ignore[attr-defined]
+
+    def conv(t: Any, env: Dict[str, Any]) -> Any:
+        if not isinstance(t, tuple):
+            return t
+        if T.is_term(t) and t[0] == "attr" and len(t) == 3 and t[2] in names:
+            try:
+                bt = TY.Typer.unopt(ty.type_of(T.strip(t[1]), env))
+            except Exception:
+                bt = None
+            if isinstance(bt, tuple) and len(bt) == 2 and bt[0] == "cls" and bt[1] in recs and t[2] in recs[bt[1]][0]:
+                return ("idx", conv(t[1], env), ("const", recs[bt[1]][0].index(t[2])))
+        t2 = tuple(conv(x, env) for x in t)
+        if T.is_term(t2) and t2[0] == "call":
+            rv = T.record_values(t2)
+            if rv is not None and rv[0] in recs:
+                return ("tuple", tuple(rv[1][f] for f in recs[rv[0]][0]))
+        return t2
+
+    out: List[Event] = []
+    changed = False
+    for e in s.events:
+        probe = (e.term, e.guards, e.iters)
+        if not any(T.is_term(x) and ((x[0] == "attr" and len(x) == 3 and x[2] in names) or (x[0] == "glob" and x[1] in recs)) for x in T.subterms(probe)):
+            out.append(e)
+            continue
+        try:
+            env = ty.event_env(fi, e)
+        except Exception:
+            env = {}
+        term, guards, iters = conv(e.term, env), conv(e.guards, env), conv(e.iters, env)
+        if e.kind == "call" and term[0] != "call":
+            changed = True          # building a tuple is not a call
+            continue
+        if (term, guards, iters) != probe:
+            changed = True
+            out.append(Event(e.idx, e.kind, term, conv(e.raw, env), e.node, e.stmt, guards, iters, e.tries, e.awaited, e.extra))
+        else:
+            out.append(e)
+    if changed:
+        out = fuse_events(out)
+        s = Summary(fi, out, [e for e in out if e.kind == "return"], s.env, s.locals, s.unknowns)
+    fi._final = s  # type: ignore[attr-defined]
+    return s
